@@ -116,6 +116,10 @@ func c14Exec(c c14Case) (keys []string, detail, class string) {
 		c2 := c
 		c2.Relay, c2.Frags = (c.Relay+5)%len(c14Relay), nil
 		c2.Doc = (c.Doc + 1) % len(c14Docs)
+		// ... and another IdP endpoint (metadata refresh): the URL follows the configuration of
+		// this call
+		c2.URL = (c.URL + 1) % len(c14URLs)
+		sp.IdentityProviderSSOURL, sp.IdentityProviderSLOURL = c14URLs[c2.URL], c14URLs[c2.URL]
 		k2, d2, _ := c14ExecOn(sp, signer, c2)
 		for _, k := range k2 {
 			keys = append(keys, strings.Replace(k, "C14/", "C14/second-call-on-same-instance/", 1))
@@ -130,6 +134,7 @@ func c14Exec(c c14Case) (keys []string, detail, class string) {
 		// signed: the next URL is signed with the new key
 		sp.SetSPSigningKeyStore(world.SetterKeyStore("KA"))
 		c3 := c
+		sp.IdentityProviderSSOURL, sp.IdentityProviderSLOURL = c14URLs[c3.URL], c14URLs[c3.URL]
 		c3.Relay, c3.Frags = (c.Relay+3)%len(c14Relay), nil
 		k3, d3, _ := c14ExecOn(sp, "KA", c3)
 		for _, k := range k3 {
@@ -355,7 +360,7 @@ func c14Replay(raw json.RawMessage) ([]string, string) {
 }
 
 func c14Run(r *mc.Run) {
-	r.Rule = "full product relay state(22) x document(4) x IdP URL(5: no query, one parameter, repeated and escaped parameters, escaped path, empty-valued and valueless parameters) x function(5) x SignAuthnRequests(2) x algorithm(4: unset, rsa-sha1, rsa-sha512, ecdsa-sha256) x key configuration(5, incl. a P-256 signing key with every algorithm setting), plus relay states assembled from every sequence of 2 (quick) / 2-3 (thorough) of 23 query-syntax fragments through the two signing redirect builders; oracle = hand-split raw query (no net/url), strict percent-decoding, base64 + raw inflate, PKCS#1 v1.5 / ECDSA verification with the reported certificate over SAMLRequest=..[&RelayState=..]&SigAlg=.. assembled from the raw values as they appear; each case is followed on the same instance by a second URL (other relay state and document) and, for RSA signers, by a third one after the signing key was replaced through SetSPSigningKeyStore. non-trivial = a URL was produced and decoded; distinct = distinct case"
+	r.Rule = "full product relay state(22) x document(4) x IdP URL(5: no query, one parameter, repeated and escaped parameters, escaped path, empty-valued and valueless parameters) x function(5) x SignAuthnRequests(2) x algorithm(4: unset, rsa-sha1, rsa-sha512, ecdsa-sha256) x key configuration(5, incl. a P-256 signing key with every algorithm setting), plus relay states assembled from every sequence of 2 (quick) / 2-3 (thorough) of 23 query-syntax fragments through the two signing redirect builders; oracle = hand-split raw query (no net/url), strict percent-decoding, base64 + raw inflate, PKCS#1 v1.5 / ECDSA verification with the reported certificate over SAMLRequest=..[&RelayState=..]&SigAlg=.. assembled from the raw values as they appear; each case is followed on the same instance by a second URL (other relay state, document and IdP endpoint) and, for RSA signers, by a third one after the signing key was replaced through SetSPSigningKeyStore. non-trivial = a URL was produced and decoded; distinct = distinct case"
 	var cases []c14Case
 	mc.Enumerate(-1, r.Expired, func(ch *mc.Chooser) {
 		c := c14Case{}
